@@ -21,7 +21,8 @@ The expected value of every test comes out of TLC (the tables are written by ASS
 module that TLC has just model-checked).
 """
 import collections, json, os, random, shutil, signal, stat, sys, time
-from concurrent.futures import ThreadPoolExecutor
+import multiprocessing
+from concurrent.futures import ThreadPoolExecutor, ProcessPoolExecutor
 
 import pexpect
 import pexpect.utils
@@ -76,6 +77,13 @@ class Rec(object):
             if item[:2] < lst[worst][:2]:
                 lst[worst] = item
         return item
+
+    def absorb(self, totals, kept):
+        """merge what a worker process collected"""
+        for key, lst in kept.items():
+            for size, _, clause, case, detail, signature in lst:
+                self.fail(clause, case, detail, signature)
+            self.totals[key] += totals[key] - len(lst)
 
     def flush(self):
         for key in sorted(self.kept):
@@ -576,6 +584,25 @@ def new_stats():
     return {'evaluations': 0}
 
 
+def split_table_worker(job):
+    """replays one emitted table on split_command_line; returns counts, the kept failures and a seeded sample"""
+    path, seed, per_file = job
+    table = json.load(open(path))
+    rec = Rec(None)
+    st = new_stats()
+    nprot = 0
+    for r in table:
+        split_row_inprocess(r, rec, st)
+        # non-trivial and distinct: something needed protection, and the command line is not a copy of another
+        # row's (a single argument without leading / trailing whitespace does not show its separator)
+        if r['pr'] and not (len(r['a']) == 1 and not r['l'] and not r['t'] and r['p'] != '_'):
+            nprot += 1
+    idx = sorted(random.Random(seed).sample(range(len(table)), min(per_file, len(table))))
+    return {'path': path, 'nrows': len(table), 'nprot': nprot, 'evaluations': st['evaluations'],
+            'totals': dict(rec.totals), 'kept': rec.kept, 'sample': [table[i] for i in idx],
+            'first': [table[0], table[len(table) // 2], table[-1]]}
+
+
 def probe_ctx():
     p = common.Ctx.__new__(common.Ctx)
     p.failures = []
@@ -584,40 +611,81 @@ def probe_ctx():
     return p
 
 
-def self_test(ctx, split_sample, which_table, config_table, abench, cbench):
-    """a wrong expectation in each table must be noticed by the same test functions"""
+def clauses_failing(fn):
+    """runs one test function against a private recorder; returns the set of clauses it reports"""
     p = probe_ctx()
     rec = Rec(p)
-    r = dict(split_sample)
-    r['a'] = list(r['a'])
-    r['a'][0] = r['a'][0] + 'x'
-    split_row_inprocess(r, rec, new_stats(), reps=('std',))
+    fn(rec)
     rec.flush()
-    n1 = len(p.failures)
-    split_row_child(r, 'pty', abench, rec, new_stats())
-    rec.flush()
-    n2 = len(p.failures) - n1
-    wr = next(x for x in which_table if x['want']['k'] == 'found' and x['want']['idx'] == 2)
-    bad = json.loads(json.dumps(wr))
-    bad['want'] = {'k': 'found', 'src': wr['want']['src'], 'idx': 1}
-    bad['world']['src']['dirs'][0] = 'file'          # keep the tree, claim the non-executable first entry wins
-    which_row(bad, os.path.join(ctx.work, 'selftest_tree'), rec, new_stats(), transports=('pty',))
-    rec.flush()
-    n3 = len(p.failures) - n1 - n2
-    cr = next(x for x in config_table if x['row']['transport'] == 'pty' and x['row']['dims'] == 'small'
-              and not x['row']['echo'] and x['row']['ignore_sighup'] and x['row']['cwd'] == 'tmp'
-              and x['row']['env'] == 'with_path')
-    bad = json.loads(json.dumps(cr))
-    bad['want'].update({'rows': 31, 'cols': 7, 'echo': True, 'sighup': 'default', 'cwd': 'parent', 'env': 'inherited'})
-    config_row(bad, cbench, rec, new_stats())
-    rec.flush()
-    clauses = set(a[0] for a in p.failures[n1 + n2 + n3:])
-    wantc = {'C13:cwd', 'C13:env', 'C13:winsize', 'C13:echo', 'C13:sighup'}
-    if not (n1 and n2 and n3 >= 2 and wantc <= clauses):
-        raise tlc.TLCError('C13 self-test: corrupted expectations were not noticed (split %d, argv %d, which %d, config %s)' % (
-            n1, n2, n3, sorted(clauses)))
-    ctx.note('binding self-test: corrupted expectations rejected (split in-process %d, argv in child %d, which %d, config clauses %s)' % (
-        n1, n2, n3, ' '.join(sorted(clauses))))
+    return set(a[0] for a in p.failures)
+
+
+def blind(cands, run, corrupt, clause, limit=8):
+    """The machinery is blind on `clause` when a row passes under its genuine expectation AND under a corrupted
+    one.  Rows on which the implementation itself fails the genuine expectation say nothing about the machinery
+    (those failures are reported by the check proper) and the next candidate is tried.
+    Returns 'ok' | 'blind' | 'skipped' (no candidate passes its genuine expectation)."""
+    for r in cands[:limit]:
+        if clause in run(r):
+            continue
+        return 'ok' if clause in run(corrupt(r)) else 'blind'
+    return 'skipped'
+
+
+def self_test(ctx, sample, which_table, config_table, abench, cbench):
+    """a wrong expectation in each table must be noticed by the same test functions"""
+    def bad_split(r):
+        b = dict(r)
+        b['a'] = [r['a'][0] + 'x'] + list(r['a'][1:])
+        return b
+
+    def bad_which(r):
+        b = json.loads(json.dumps(r))
+        b['want'] = {'k': 'found', 'src': r['want']['src'], 'idx': 1}    # claim the non-executable first entry wins
+        return b
+
+    def bad_config(r):
+        b = json.loads(json.dumps(r))
+        w = r['want']
+        b['want'].update({'rows': w['cols'], 'cols': w['rows'], 'echo': not w['echo'],
+                          'sighup': 'default' if w['sighup'] == 'ignored' else 'ignored',
+                          'cwd': 'parent' if w['cwd'] == 'tmp' else 'tmp', 'env': 'inherited'})
+        return b
+    splits = [r for r in sample if not r['l']] + [r for r in sample if r['l']]
+    whichs = [x for x in which_table if x['want']['k'] == 'found' and x['want']['idx'] == 2]
+    configs = [x for x in config_table if x['row']['transport'] == 'pty' and x['row']['dims'] == 'small'
+               and x['row']['env'] == 'without_path']
+    tree = os.path.join(ctx.work, 'selftest_tree')
+    verdicts = collections.OrderedDict()
+    verdicts['C13:split-roundtrip'] = blind(
+        splits, lambda r: clauses_failing(lambda rec: split_row_inprocess(r, rec, new_stats(), reps=('std',))),
+        bad_split, 'C13:split-roundtrip')
+    verdicts['C13:argv-in-child'] = blind(
+        splits, lambda r: clauses_failing(lambda rec: split_row_child(r, 'pty', abench, rec, new_stats())),
+        bad_split, 'C13:argv-in-child')
+    for clause in ('C13:which', 'C13:which-child'):
+        verdicts[clause] = blind(
+            whichs, lambda r: clauses_failing(lambda rec: which_row(r, tree, rec, new_stats(), transports=('pty',))),
+            bad_which, clause)
+    memo = {}
+
+    def run_config(r):
+        key = json.dumps(r, sort_keys=True)
+        if key not in memo:
+            memo[key] = clauses_failing(lambda rec: config_row(r, cbench, rec, new_stats()))
+            if 'C13:launch' in memo[key]:          # no report at all: every clause counts as failed
+                memo[key] |= {'C13:cwd', 'C13:env', 'C13:winsize', 'C13:echo', 'C13:sighup'}
+        return memo[key]
+    for clause in ('C13:cwd', 'C13:env', 'C13:winsize', 'C13:echo', 'C13:sighup'):
+        verdicts[clause] = blind(configs, run_config, bad_config, clause)
+    shutil.rmtree(tree, ignore_errors=True)
+    blinds = [c for c, v in verdicts.items() if v == 'blind']
+    if blinds:
+        raise tlc.TLCError('C13 self-test: a corrupted expectation was accepted for %s' % ', '.join(blinds))
+    skipped = [c for c, v in verdicts.items() if v == 'skipped']
+    ctx.note('binding self-test: a corrupted expectation is rejected for %s%s' % (
+        ' '.join(c for c, v in verdicts.items() if v == 'ok'),
+        ('; not testable here (the implementation fails every candidate row, reported above): ' + ' '.join(skipped)) if skipped else ''))
 
 
 def replay(ctx):
@@ -662,7 +730,8 @@ def run(ctx):
     rec = Rec(ctx)
     rng = random.Random(ctx.seed * 1009 + 13)
 
-    # (a) every split case on split_command_line; a seeded sample through real children
+    # (a) every split case on split_command_line (one worker process per table, so that this process stays
+    # small: it forks thousands of children below); a seeded sample through real children
     t0 = time.time()
     st_split = new_stats()
     nrows = nprot = 0
@@ -670,23 +739,21 @@ def run(ctx):
     per_file = -(-want_sample // len(split_outs))
     sample = []
     first_rows = []
-    for path in split_outs:
-        table = json.load(open(path))
-        if ncases.get(path) is not None and ncases[path] != len(table):
-            raise tlc.TLCError('Launch/split: %d cases went through the machine but the table has %d rows' % (ncases[path], len(table)))
-        for r in table:
-            split_row_inprocess(r, rec, st_split)
-            if r['pr']:
-                nprot += 1
-        nrows += len(table)
-        idx = rng.sample(range(len(table)), min(per_file, len(table)))
-        sample += [table[i] for i in sorted(idx)]
-        if not first_rows:
-            first_rows = [table[0], table[len(table) // 2], table[-1]]
-        del table
+    jobs = [(path, ctx.seed * 1009 + 13 + k, per_file) for k, path in enumerate(split_outs)]
+    with ProcessPoolExecutor(max_workers=min(4, len(jobs)), mp_context=multiprocessing.get_context('fork')) as ex:
+        for res in ex.map(split_table_worker, jobs):
+            if ncases.get(res['path']) is not None and ncases[res['path']] != res['nrows']:
+                raise tlc.TLCError('Launch/split: %d cases went through the machine but the table has %d rows' % (
+                    ncases[res['path']], res['nrows']))
+            nrows += res['nrows']
+            nprot += res['nprot']
+            st_split['evaluations'] += res['evaluations']
+            rec.absorb(res['totals'], res['kept'])
+            sample += res['sample']
+            first_rows = first_rows or res['first']
     t_split = time.time() - t0
     fails_split = rec.total()
-    ctx.note('split: %d cases (%d with a protected character) x 2 sets of representatives = %d calls of split_command_line, '
+    ctx.note('split: %d cases (%d distinct command lines with a protected character) x 2 sets of representatives = %d calls of split_command_line, '
              '%d disagree (%.0fs)' % (nrows, nprot, st_split['evaluations'], fails_split, t_split))
     t0 = time.time()
     abench = ArgvBench(ctx.work)
@@ -737,8 +804,7 @@ def run(ctx):
         len(config_table), st_cfg['evaluations'], fails_cfg, ctx.drift, t_cfg))
 
     # (d) binding self-test
-    clean = next((r for r in sample if not r['l']), sample[0])
-    self_test(ctx, clean, which_table, config_table, abench, cbench)
+    self_test(ctx, sample, which_table, config_table, abench, cbench)
 
     rec.flush()
     if rec.total() > len(ctx.failures):
@@ -755,8 +821,9 @@ def run(ctx):
         'evaluations': evaluations, 'distinct_nontrivial': nprot,
         'rule': 'one implementation test per TLC-emitted row: every split case on split_command_line under two sets of '
                 'representative characters, a seeded sample through real pty / popen children; every PATH layout on which() '
-                'and through real children; every configuration row through a real child.  non-trivial = distinct split cases '
-                'in which some argument contains a character that needs protection (whitespace, quote, backslash)',
+                'and through real children; every configuration row through a real child.  non-trivial = distinct command '
+                'lines of split cases in which some argument contains a character that needs protection (whitespace, '
+                'quote, backslash)',
         'exhaustive': True,
         'split_cases': nrows, 'split_calls': st_split['evaluations'], 'argv_children': st_argv['evaluations'],
         'which_layouts': len(which_table), 'which_tests': st_which['evaluations'], 'config_rows': len(config_table),
